@@ -1022,3 +1022,157 @@ def rule_BYTEWIN(ctx):
     if n < 3:
         raise AnalysisError(f'only {n} tobytes() calls found in the package (floor 3)')
     return r
+
+
+# ---------------------------------------------------------------------------------------------- SIB
+def _exit_guards(f):
+    """Early exits that depend only on parameters: {(test with walrus targets unwrapped, what happens)}."""
+    import re as _re
+    out = set()
+    ps = set(f.params()[1:])
+    for s in G.body_wo_doc(f):
+        if isinstance(s, ast.If) and G.exits(s.body) and not s.orelse:
+            names = {y.id for y in ast.walk(s.test) if isinstance(y, ast.Name)}
+            if names & ps and 'self' not in names:
+                last = s.body[-1]
+                if isinstance(last, ast.Raise):
+                    act = 'raise ' + (ast.unparse(last.exc.func if isinstance(last.exc, ast.Call) else last.exc) if last.exc is not None else '')
+                else:
+                    act = 'return ' + (ast.unparse(last.value) if getattr(last, 'value', None) is not None else 'None')
+                t = _re.sub(r'\((\w+) := [^()]*(\([^()]*\))?[^()]*\)', r'\1', ast.unparse(s.test))
+                out.add((t, act))
+    return out
+
+
+def rule_SIB(ctx):
+    """A stream class that re-implements a mutator of its base (instead of calling it) must keep the base's argument
+    checks: both versions end in the same internal routine, so a check one of them lacks is a case only that class gets wrong
+    (e.g. replace(count=0) replacing everything on one class and nothing on the other)."""
+    m = ctx.m
+    r = RuleResult('SIB', 'a re-implemented mutator keeps the argument checks of the version it replaces (sibling agreement)')
+    n = 0
+    for base, sub in (('BitArray', 'BitStream'), ('Bits', 'ConstBitStream'), ('Bits', 'BitArray')):
+        for name, fs in sorted(m.classes[sub].methods.items()):
+            fb = m.classes[base].methods.get(name)
+            if fb is None or name in ('__init__', '__new__'):
+                continue
+            txt = ast.unparse(fs.node)
+            if f'super().{name}(' in txt or f'{base}.{name}(' in txt or f'super({sub}, self).{name}(' in txt:
+                continue          # delegates: the base's checks run
+            gb, gs = _exit_guards(fb), _exit_guards(fs)
+            if not gb and not gs:
+                continue
+            n += 1
+            only_b, only_s = gb - gs, gs - gb
+            if only_b or only_s:
+                who, g = (sub, sorted(only_b)[0]) if only_b else (base, sorted(only_s)[0])
+                f = fs if only_b else fb
+                r.fail(f.key, f'{name}: `if {g[0]}: {g[1]}` missing', f"{who}.{name} lacks the check `if {g[0]}: {g[1]}` that its sibling "
+                       f"{base if who == sub else sub}.{name} makes before handing over to the same internal routine: for that argument the two "
+                       'classes now behave differently', loc=f.loc())
+            else:
+                r.ok(f'{sub}.{name}', {'instance': f'{base}.{name} / {sub}.{name}', 'checks': sorted(g[0] for g in gb)})
+    if n < 3:
+        raise AnalysisError(f'only {n} re-implemented mutators with parameter checks found (floor 3)')
+    return r
+
+
+# ---------------------------------------------------------------------------------------------- SGN0
+def rule_SGN0(ctx):
+    """-0.0 == 0.0 in Python, but they are different bit patterns in every float format the library supports.  A float
+    encoder that branches on `f == 0` (or `not f`) to produce a fixed pattern, or a cache keyed by float item values,
+    gives -0.0 the encoding of +0.0 (or the other way round, depending on which was seen first)."""
+    m = ctx.m
+    r = RuleResult('SGN0', 'no float encoder or item cache treats -0.0 and 0.0 as the same value')
+    n = 0
+    for f in m.funcs.values():
+        if f.mod == '__main__' or f.mod == 'luts':
+            continue
+        # float-valued names: parameters annotated float / converted with float(...)
+        fl = set()
+        for a in f.node.args.posonlyargs + f.node.args.args:
+            if a.annotation is not None and 'float' in ast.unparse(a.annotation):
+                fl.add(a.arg)
+        for x in own_walk(f.node):
+            if isinstance(x, ast.Assign) and len(x.targets) == 1 and isinstance(x.targets[0], ast.Name) and isinstance(x.value, ast.Call) \
+                    and isinstance(x.value.func, ast.Name) and x.value.func.id == 'float':
+                fl.add(x.targets[0].id)
+        if fl and (f.mod == 'bitstore_helpers' or f.name.startswith('_set') or 'float' in f.name):
+            for x in own_walk(f.node):
+                if not isinstance(x, (ast.If, ast.IfExp)):
+                    continue
+                n += 1
+                t = x.test
+                zero = False
+                for d in ast.walk(t):
+                    if isinstance(d, ast.Compare) and len(d.ops) == 1 and isinstance(d.ops[0], (ast.Eq, ast.NotEq)):
+                        a, b = d.left, d.comparators[0]
+                        for u, v in ((a, b), (b, a)):
+                            if isinstance(u, ast.Name) and u.id in fl and isinstance(v, ast.Constant) and not isinstance(v.value, (str, bool)) and v.value == 0:
+                                zero = True
+                    if isinstance(d, ast.UnaryOp) and isinstance(d.op, ast.Not) and isinstance(d.operand, ast.Name) and d.operand.id in fl:
+                        zero = True
+                if isinstance(t, ast.Name) and t.id in fl:
+                    zero = True
+                if zero and 'copysign' not in ast.unparse(t) and 'copysign' not in ast.unparse(f.node):
+                    r.fail(f.key, t, f"{f.name} branches on a float being zero ({norm(t)}): -0.0 takes the same branch as 0.0 and loses (or gains) its sign bit",
+                           loc=f.loc(t))
+                else:
+                    r.ok(f'{f.key}:{norm(t)[:40]}')
+    # caches keyed by item values: a local or class-level dict filled with d[k] = <encoding of k> for k taken from an iterable
+    for f in m.funcs.values():
+        if f.cls != 'Array' and f.mod not in ('bitstore_helpers', 'array_'):
+            continue
+        loopvars = set()
+        for x in own_walk(f.node):
+            if isinstance(x, (ast.For, ast.comprehension)) and isinstance(x.target, ast.Name):
+                loopvars.add(x.target.id)
+        for x in own_walk(f.node):
+            subs = [t for t in x.targets if isinstance(t, ast.Subscript) and isinstance(t.slice, ast.Name) and t.slice.id in loopvars] \
+                if isinstance(x, ast.Assign) else []
+            if subs and isinstance(x.value, (ast.Call, ast.Name)):
+                k = subs[0].slice.id
+                uses_k = isinstance(x.value, ast.Call) and any(isinstance(y, ast.Name) and y.id == k for y in ast.walk(x.value))
+                prior = any(isinstance(y, ast.Assign) and isinstance(y.value, ast.Call) and any(isinstance(z, ast.Name) and z.id == k for z in ast.walk(y.value))
+                            and isinstance(x.value, ast.Name) and any(isinstance(t2, ast.Name) and t2.id == x.value.id for t2 in y.targets) for y in own_walk(f.node))
+                if uses_k or prior:
+                    n += 1
+                    r.fail(f.key, x, f"a cache keyed by the item value '{k}' holds what was computed for the first of several equal keys: 0.0 and -0.0 "
+                           '(and 1, 1.0, True) are one key but have different encodings', loc=f.loc(x))
+    if n < 5:
+        raise AnalysisError(f'only {n} branches in float encoders examined (floor 5)')
+    return r
+
+
+# ---------------------------------------------------------------------------------------------- IDEM
+def rule_IDEM(ctx):
+    """`x & x` and `x | x` are x, so a `bs is self` shortcut is right for them; `x ^ x` is all zeros, so the same shortcut in an
+    exclusive-or (as happens when the three operators are merged into one helper) returns the wrong value for a ^= a."""
+    m = ctx.m
+    r = RuleResult('IDEM', 'the operand-is-self shortcut exists only where the operator is idempotent (and / or), never for xor')
+    n = 0
+    for c in FAMILY:
+        for name in ('__xor__', '__ixor__', '__rxor__', '__and__', '__iand__', '__or__', '__ior__'):
+            for f in m.winner(c, name):
+                n += 1
+                ident = [x for x in own_walk(f.node) if isinstance(x, (ast.If, ast.IfExp)) and any(
+                    isinstance(d, ast.Compare) and len(d.ops) == 1 and isinstance(d.ops[0], (ast.Is, ast.IsNot)) and
+                    {ast.unparse(d.left), ast.unparse(d.comparators[0])} >= {'self'} for d in ast.walk(x.test))]
+                if 'xor' in name and ident:
+                    # harmless only if the shortcut produces zeros; a plain `return self` / copy is not that
+                    bad = None
+                    for x in ident:
+                        pt, pb, _pe = G.pos_if(x)
+                        rets = [y for b in (pb if isinstance(pb, list) else [ast.Expr(value=pb)]) for y in ast.walk(b) if isinstance(y, (ast.Return, ast.Expr))]
+                        for y in rets:
+                            v = y.value
+                            if v is not None and ast.unparse(v) in ('self', 'self.__copy__()', 'self.copy()', 'self._copy()'):
+                                bad = x
+                    if bad is not None:
+                        r.fail(f.key, bad.test, f"{c}.{name} returns the operand unchanged when it is given the object itself: x ^ x must be all zeros "
+                               '(only & and | are idempotent)', loc=f.loc(bad), extra={'ctx': c})
+                        continue
+                r.ok(f'{c}.{name}')
+    if n < 12:
+        raise AnalysisError(f'only {n} bit-wise operator implementations found (floor 12)')
+    return r
